@@ -5,7 +5,7 @@ in continuation-passing style inside one statement; statements return lists of o
 Anything outside the supported subset raises Unsupported => the function is UNDECIDED.
 """
 from __future__ import annotations
-import ast, sys
+import ast, sys, os
 import z3
 from .values import *
 from .state import *
@@ -32,8 +32,9 @@ class Oblig:
         self.clause = clause
 
 
-FEAS_TIMEOUT_MS = 2000
+FEAS_TIMEOUT_MS = int(os.environ.get('PYVC_FEAS_MS', '600'))
 MERGE_IF = True
+MERGE_ORS = set()       # ids of the case-disjunctions introduced by state merging (used for case splits on `unknown`)
 LAZY_SPEC = False
 _ALIVE = []
 MAX_INLINE_DEPTH = 14
@@ -99,8 +100,31 @@ class Interp:
         sv.add(*sax)
         if cond is not None:
             sv.add(cond)
+        import time as _t
+        t0 = _t.time()
         r = sv.check()
-        sv.pop()
+        if r == z3.unknown:
+            # the incremental core gives up early on some array/datatype mixes: retry once from scratch
+            s2 = z3.Solver()
+            s2.set("timeout", 4 * FEAS_TIMEOUT_MS)
+            s2.add(*pc); s2.add(*sax)
+            if cond is not None:
+                s2.add(cond)
+            r = s2.check()
+            self.stats["feas_retries"] = self.stats.get("feas_retries", 0) + 1
+        dt = _t.time() - t0
+        if dt > 0.25:
+            self._inc = None          # a long-lived incremental solver degrades: start a new one
+            self.stats["feas_resets"] = self.stats.get("feas_resets", 0) + 1
+            sv = None
+        self.stats["feas_time"] = self.stats.get("feas_time", 0.0) + dt
+        if dt > 0.5 and os.environ.get("PYVC_DUMP") and not getattr(self, "_dumped", False):
+            self._dumped = True
+            open(os.environ["PYVC_DUMP"], "w").write(sv.to_smt2())
+        if dt > 1.0 and os.environ.get("PYVC_TRACE"):
+            print(f"[slow feasibility {dt:.1f}s r={r} pc={len(pc)} trace={st.trace[-3:]}]", flush=True)
+        if sv is not None:
+            sv.pop()
         return r != z3.unsat
 
     def branch(self, st, cond, kt, kf):
@@ -138,14 +162,19 @@ class Interp:
             outs += kf(st)
         return outs
 
-    def oblige(self, st, name, goal, kind="post", extra=None, clause=None):
+    def oblige(self, st, name, goal, kind="post", extra=None, clause=None, site_env=None):
+        if self.cur is not None and self.cur.tags:
+            base = name.split(":", 1)[1] if ":" in name else name
+            tg = self.cur.tags.get(base) or self.cur.tags.get(name)
+            if tg is not None and self.prop not in tg:
+                return
         if extra is None and self.cur_entry is not None:
             extra = {"args": {k: v.t for k, v in self.cur_entry.items() if isinstance(v, Sym)}}
         if extra is not None:
             extra["heap0"] = {f: z3.Const("H_" + f, field_sort(f)) for f in list(st.heap) if not f.startswith("$")}
             extra["ghost0"] = {g: v.t for g, v in ((st.old[2] if st.old else {}) or {}).items() if isinstance(v, Sym)}
             extra["A0"] = st.A0
-        ctx = (st, self.cur_entry) if self.cur_entry is not None else None
+        ctx = (st.fork(), self.cur_entry, site_env) if self.cur_entry is not None else None
         self.obligs.append(Oblig(f"{self.prop}/{self.cur_short()}/{name}", self.singleton_axioms() + list(st.pc), goal, list(st.trace), self.cur_q, kind, extra, ctx, clause))
 
     def cur_short(self):
@@ -186,9 +215,11 @@ class Interp:
         raise Unsupported(f"value {v!r} cannot be stored symbolically")
 
     def alloc(self, st, clsq):
-        loc = st.frontier
-        st.frontier = z3.simplify(st.frontier + 1)
-        st.fact(cls_of(loc) == self.w.cid(clsq))
+        # every allocation gets its own location symbol (>= the frontier): facts about it stay true when
+        # sibling paths are merged (a shared counter value would be given two classes by two branches)
+        loc = z3.Int(self.w.fresh("a"))
+        st.fact(loc >= st.frontier, cls_of(loc) == self.w.cid(clsq))
+        st.frontier = loc + 1
         st.version += 1
         return loc
 
@@ -530,7 +561,9 @@ class Interp:
                 if id(c) in s_.facts and id(c) not in seen:
                     seen.add(id(c)); m.pc.append(c)
         if not all(z3.is_true(c) for c in conds):
-            m.pc.append(z3.Or(conds))
+            orc = z3.Or(conds)
+            MERGE_ORS.add(orc.get_id()); _ALIVE.append(orc)
+            m.pc.append(orc)
         # environment
         keys = set(sts[0].env)
         if any(set(s_.env) != keys for s_ in sts):
@@ -1013,7 +1046,9 @@ class Interp:
                             lid = self.w.fresh("D"); s3.lheap[lid] = dict(kwargs); env["kwargs"] = LDict(lid)
                             env.update(self.cur_entry or {})
                             env.update({k_: v_ for k_, v_ in s3.env.items()})
-                            self.oblige(s3, f"site:{nm}", self.spec_bool(s3, expr, env, old=s3.old), kind="site", clause=expr)
+                            g_ = self.spec_bool(s3, expr, env, old=s3.old)
+                            self.oblige(s3, f"site:{nm}", g_, kind="site", clause=expr, site_env=env)
+                            s3.pc.append(g_)
                 return self.call(s3, fv, args, kwargs, fr, k, node=e)
             return self.ev_args(s2, e, fr, do)
         return self.ev(st, f, fr, with_f)
@@ -1396,7 +1431,8 @@ class Interp:
             return
         env = dict(env); env.update({"caller_" + k_: v for k_, v in st.env.items()})
         g = self.spec_bool(st, expr, env, old=st.old)
-        self.oblige(st, f"site:{nm}", g, kind="site")
+        self.oblige(st, f"site:{nm}", g, kind="site", clause=expr, site_env=env)
+        st.pc.append(g)          # assert, then assume: a violation is reported once, at the site
 
     def apply_contract(self, st, c, f, args, kwargs, fr, k, node=None):
         """Use a callee at its contract: assert requires, havoc modifies, assume ensures, fork raises."""
@@ -1414,18 +1450,25 @@ class Interp:
             st.pc.append(g)
         outs = []
         # ---- exceptional outcomes
-        for ri, r in enumerate(c.raises_l):
+        raises_l = list(c.raises_l)
+        if c.raises_any and not any(r.when is None and "BaseException" in [x.split(".")[-1] for x in r.classes] for r in raises_l):
+            raises_l.append(dsl.Raises("BaseException"))      # "may raise anything" is also what callers must expect
+        for ri, r in enumerate(raises_l):
             s2 = st.fork()
             if r.when is not None:
                 wc = self.spec_bool(s2, r.when, env, old=pre)
                 if not self.feasible(s2, wc):
+                    if os.environ.get("PYVC_TRACE"):
+                        print(f"[raise clause {short}:{r.name} infeasible here] trace={s2.trace[-4:]}", flush=True)
                     continue
                 s2.pc.append(wc)
             self.havoc(s2, c, env, pre, r.modifies if r.modifies is not None else c.modifies_l)
             classes = [self.w.resolve_class(x) for x in r.classes]
-            loc = s2.frontier
+            # the exception is some object existing after the call: newly created by the callee, or one that
+            # existed before (a callee may re-raise an object it was given)
             s2.frontier = z3.simplify(s2.frontier + 1)
-            exc = Sym(mk_ref(loc), hint=classes[0] if len(classes) == 1 else None)
+            exc = self.fresh_v("exc_" + short, hint=classes[0] if len(classes) == 1 else None)
+            s2.pc.append(z3.And(is_ref(exc.t), get_loc(exc.t) >= 0, get_loc(exc.t) < s2.frontier))
             s2.pc.append(self.w.isinstance_term(exc.t, classes))
             env2 = dict(env); env2["exc"] = exc
             if r.ensures is not None:
@@ -1523,6 +1566,8 @@ def _hard(c):
             continue
         seen.add(x.get_id())
         if z3.is_quantifier(x):
+            if x.is_lambda():
+                r = True; break
             stack.append(x.body()); continue
         if z3.is_app(x):
             if x.decl().kind() in _HARD_KINDS:
